@@ -6,5 +6,6 @@ CONSTANTS
   MaxAge = 2
   MaxReap = 2
   Faults = TRUE
+  SplitGet = FALSE
 VIEW View
-INVARIANTS TypeOK OneTransportPerName IdentitiesNeverReused NeverHalfInitialised BoundedRetries OnlyAgedAreReaped
+INVARIANTS TypeOK OneTransportPerName CallersShareTheCachedTransport SameNameSameTransport IdentitiesNeverReused NeverHalfInitialised BoundedRetries OnlyAgedAreReaped
